@@ -17,7 +17,7 @@ REPLAY_BOUNDS = {
     'compile': 'compile_cnf / collapse_clauses on 8 fixed clause lists x 6 orders and 600 seeded random CNFs; compile_logical_expr / compile_plan on 600 seeded random expressions of depth <= 4 over 3 variables; compile_cnf_with_assignments against compile-then-condition_model (same pointer) on 8 lists x 6 orders x 5 partial assignments and 600 random; BottomUpPlan::from_dtree(DTree::from_cnf) + compile_plan on 600 random CNFs; CompressionSddBuilder compile_cnf / compile_logical_expr / compile_plan under all 12 vtrees over 3 variables (8 fixed lists + 400 random CNFs and expressions) and 4 vtrees over 4 variables (100 random CNFs) and 5 vtrees over 5 variables (200 random CNFs and expressions), evaluated by a structural walk of the SDD; SemanticSddBuilder<U64_LARGEST> compile_cnf on the same CNFs (its ite is an explicit todo!(), so no expressions / plans)',
     'dtree': 'DTree::from_cnf + VTree::from_dtree on 10 fixed CNFs with independent components / unused labels and 700 seeded random CNFs over 2-6 variables (half connected through one clause over all variables, half arbitrary) with random elimination orders over 0..largest label: leaves = clauses, vars = union of children, cutset formula, vtree leaves = CNF variables',
     'sdd': 'CompressionSddBuilder: 1200 seeded random straight-line programs of 9-18 operations (var, negate, and, or, iff, xor, ite, condition, exists, and verbatim repetitions of earlier operations so that the apply and ite caches hit) over 8 vtrees with 3-4 variables; every result evaluated by a structural walk against the truth table of the definition; earlier results re-checked after every operation',
-    'hasher': 'CnfHasher new / push / decide / pop / hash: 2 fixed and 600 seeded random histories of 4-15 operations on CNFs with 2-4 variables and 1-5 clauses of <= 3 literals (prime product < 2^128), partial model kept in step with the decisions; every pair of visited states that falsify no clause: equal hash <=> the unsatisfied non-unit clauses restricted to unassigned literals coincide clause by clause',
+    'hasher': 'CnfHasher new / push / decide / pop / hash: EXHAUSTIVE walk over all partial assignments (push, decide, recurse, pop) of 501 formulas with 3-5 variables and 2-5 clauses of 2-3 literals (half with a pivot variable and otherwise positive literals, so literals repeat across clauses), every pair of visited states compared; plus 2 fixed and 600 seeded random histories of 4-15 operations on CNFs with 2-4 variables and 1-5 clauses of <= 3 literals (prime product < 2^128), partial model kept in step with the decisions; every pair of visited states that falsify no clause: equal hash <=> the unsatisfied non-unit clauses restricted to unassigned literals coincide clause by clause',
     'vtree': 'VTreeManager::new / var_index / vtree / lca / is_prime_index / is_prime_var / num_vars on every binary tree shape x every labelling with 1-4 leaves (dense labels 0..n-1) and every shape with 3 seeded labellings for 5 and 6 leaves (303 trees), all pairs of in-order indices, against a direct walk of the shape',
     'poly': 'Polynomial<FiniteField<U32_TINY>>: 403 pairs of polynomials with 0..33 coefficients (seeded random), + and * against the schoolbook definition, and the semiring laws (+,* commutative and associative, identities, annihilation, distributivity) as == on the results, third operand = second reversed',
 }
